@@ -2,9 +2,10 @@
 
    complement_spec     Complement(n, a), every n and every strictly increasing a (elements anywhere):
                        never panics, returns the strictly increasing list of {0..n-1} \ a
-   range_spec          Range(start, end, step): Panic exactly when [range_infinite], otherwise the
-                       strictly increasing list of the start + k*step, k >= 0, inside [start, end)
-                       (ascending) resp. (end, start] (descending)
+   range_spec          Range(start, end, step) for all int64 arguments, on the uint64 arithmetic of the
+                       code: Panic exactly when [range_infinite] or when the number of elements
+                       exceeds MaxInt (make), otherwise the strictly increasing list of the
+                       start + k*step, k >= 0, inside [start, end) resp. (end, start]
    new_sorted_ints_spec  NewSortedInts(xs...) = canon xs for every argument list
    remove_m_spec       Remove on the backing array: the view loses exactly x, the array keeps its
                        length and the cells beyond the old length *)
@@ -66,44 +67,9 @@ Proof.
 Qed.
 
 (* ---------------------------------------------------------------- Range *)
-Lemma range_loop_eq : forall fuel i e step, range_loop fuel i e step =
-  if i <? e then
-    match fuel with
-    | O => OutOfFuel
-    | S f => do r <- range_loop f (i + step) e step; Ret (i :: r)
-    end
-  else Ret [].
-Proof. destruct fuel; reflexivity. Qed.
+Ltac Zify.zify_post_hook ::= Z.div_mod_to_equations.
 
-(* fuel = the number of iterations = ceil((e - i) / step) (what Range passes to make as capacity) *)
-Lemma range_loop_spec : forall fuel i e step, 0 < step ->
-  (Z.to_nat ((e - i + step - 1) / step) <= fuel)%nat ->
-  exists r, range_loop fuel i e step = Ret r /\ SInc r /\
-            (forall z, In z r <-> exists k, 0 <= k /\ z = i + k * step /\ z < e).
-Proof.
-  induction fuel as [|f IH]; intros i e step Hs Hf; rewrite range_loop_eq.
-  - destruct (Z.ltb_spec i e) as [Hlt|Hge].
-    { exfalso. assert (1 <= (e - i + step - 1) / step) by (apply Z.div_le_lower_bound; lia). lia. }
-    exists []. split; [reflexivity|]. split; [apply SInc_nil|]. intros z. simpl. split; [tauto|].
-    intros [k [Hk [E L]]]. nia.
-  - destruct (Z.ltb_spec i e) as [Hlt|Hge].
-    2:{ exists []. split; [reflexivity|]. split; [apply SInc_nil|]. intros z. simpl. split; [tauto|].
-        intros [k [Hk [E L]]]. nia. }
-    assert (Hstep : (e - i + step - 1) / step = (e - (i + step) + step - 1) / step + 1).
-    { replace (e - i + step - 1) with ((e - (i + step) + step - 1) + 1 * step) by lia.
-      apply Z.div_add. lia. }
-    assert (0 <= (e - (i + step) + step - 1) / step) by (apply Z.div_pos; lia).
-    destruct (IH (i + step) e step Hs) as [r [E [S I]]]; [lia|].
-    rewrite E. cbn [bind]. exists (i :: r). split; [reflexivity|]. split.
-    + apply SInc_cons; [exact S|]. intros y Hy. apply I in Hy. destruct Hy as [k [Hk [Ey _]]]. nia.
-    + intros z. simpl In. rewrite I. split.
-      * intros [Ez|[k [Hk [Ez L]]]].
-        -- exists 0. lia.
-        -- exists (k + 1). split; [lia|]. split; [nia|exact L].
-      * intros [k [Hk [Ez L]]]. destruct (Z.eq_dec k 0) as [K0|K0].
-        -- left. subst k. lia.
-        -- right. exists (k - 1). split; [lia|]. split; [nia|exact L].
-Qed.
+Definition int64 (x : Z) : Prop := min_int <= x <= max_int.
 
 (* "Infinite set": the progression start, start+step, ... never passes end *)
 Definition range_infinite (start e step : Z) : Prop :=
@@ -114,6 +80,10 @@ Definition in_range (start e step z : Z) : Prop :=
   exists k, 0 <= k /\ z = start + k * step /\
             ((start <= e /\ start <= z < e) \/ (e < start /\ e < z <= start)).
 
+(* the number of elements of the result *)
+Definition range_count (start e step : Z) : Z :=
+  if e =? start then 0 else (Z.abs (e - start) - 1) / Z.abs step + 1.
+
 Lemma range_cond : forall start e step,
   (((e <? start) && (step >? 0)) || ((e >? start) && (step <? 0)) || (negb (e =? start) && (step =? 0))) = true
   <-> range_infinite start e step.
@@ -123,53 +93,116 @@ Proof.
   rewrite !Z.ltb_lt. rewrite !Z.gtb_ltb, !Z.ltb_lt. lia.
 Qed.
 
-Theorem range_spec : forall start e step,
+(* int(x) of a uint64 sum that is congruent to a representable value is that value *)
+Lemma s64_sum : forall m p, min_int <= m + p <= max_int ->
+  s64 (u64 (m mod W64 + u64 p)) = m + p.
+Proof.
+  intros m p H. unfold s64, u64, W64, min_int, max_int in *. cbv zeta.
+  rewrite Z.mod_mod by lia. rewrite <- Z.add_mod by lia.
+  destruct (Z.ltb_spec ((m + p) mod 18446744073709551616) 9223372036854775808); lia.
+Qed.
+
+Lemma range_fill_spec : forall n i m stp,
+  0 < stp -> 0 <= i -> min_int <= m -> m + (i + Z.of_nat n - 1) * stp <= max_int \/ n = O ->
+  Z.of_nat n + i <= W64 ->
+  SInc (range_fill n i (m mod W64) stp) /\
+  forall z, In z (range_fill n i (m mod W64) stp) <-> exists j, i <= j < i + Z.of_nat n /\ z = m + j * stp.
+Proof.
+  induction n as [|n IH]; intros i m stp Hs Hi Hm Hmax Hw.
+  - split; [apply SInc_nil|]. intros z. simpl. split; [tauto|]. intros [j [Hj _]]. lia.
+  - destruct Hmax as [Hmax|]; [|discriminate].
+    assert (Hi64 : u64 i = i) by (unfold u64, W64 in *; lia).
+    assert (Hel : s64 (u64 (m mod W64 + u64 (u64 i * stp))) = m + i * stp).
+    { rewrite Hi64. apply s64_sum. unfold min_int, max_int in *. nia. }
+    destruct (IH (i + 1) m stp Hs ltac:(lia) Hm) as [S I].
+    + destruct n; [right; reflexivity|left]. replace (i + 1 + Z.of_nat (S n) - 1) with (i + Z.of_nat (S (S n)) - 1) by lia. exact Hmax.
+    + lia.
+    + cbn [range_fill]. rewrite Hel. split.
+      * apply SInc_cons; [exact S|]. intros y Hy. apply I in Hy. destruct Hy as [j [Hj Ey]]. nia.
+      * intros z. simpl In. rewrite I. split.
+        -- intros [Ez|[j [Hj Ez]]]; [exists i; split; [lia|lia]|exists j; split; [lia|exact Ez]].
+        -- intros [j [Hj Ez]]. destruct (Z.eq_dec j i) as [->|N]; [left; lia|right; exists j; split; [lia|exact Ez]].
+Qed.
+
+Theorem range_spec : forall start e step, int64 start -> int64 e -> int64 step ->
   (range_infinite start e step -> range start e step = Panic) /\
-  (~ range_infinite start e step ->
+  (~ range_infinite start e step -> range_count start e step > max_int -> range start e step = Panic) /\
+  (~ range_infinite start e step -> range_count start e step <= max_int ->
      exists r, range start e step = Ret r /\ SInc r /\ forall z, In z r <-> in_range start e step z).
 Proof.
-  intros start e step. unfold range.
+  intros start e step Is Ie It. unfold range.
   destruct (((e <? start) && (step >? 0)) || ((e >? start) && (step <? 0)) || (negb (e =? start) && (step =? 0))) eqn:C.
-  - apply range_cond in C. split; [reflexivity|tauto].
-  - assert (NI : ~ range_infinite start e step) by (rewrite <- range_cond, C; discriminate).
-    split; [tauto|]. intros _. unfold range_infinite in NI.
-    destruct (Z.eqb_spec e start) as [Ees|Nes].
-    + exists []. split; [reflexivity|]. split; [apply SInc_nil|]. intros z. simpl. split; [tauto|].
-      intros [k [Hk [Ez HH]]]. lia.
-    + destruct (Z.ltb_spec e start) as [Hlt|Hge].
-      * (* descending *)
-        assert (Hst : 0 < - step) by lia.
-        set (st := - step) in *.
-        assert (Hq : Z.quot (start - e - 1) st = (start - e - 1) / st) by (apply Z.quot_div_nonneg; lia).
-        rewrite Hq. set (k := (start - e - 1) / st).
-        assert (Hk : 0 <= k) by (apply Z.div_pos; lia).
-        assert (Hk1 : k * st <= start - e - 1 < (k + 1) * st).
-        { pose proof (Z.mul_div_le (start - e - 1) st Hst).
-          pose proof (Z.mul_succ_div_gt (start - e - 1) st Hst). fold k in H, H0. lia. }
-        cbv zeta. cbn [fst snd].
-        rewrite (Z.quot_div_nonneg (start + 1 - (start - k * st) + st - 1) st) by nia.
-        rewrite with_cap_nonneg by (apply Z.div_pos; nia).
-        destruct (range_loop_spec (Z.to_nat ((start + 1 - (start - k * st) + st - 1) / st))
-                    (start - k * st) (start + 1) st Hst) as [r [E [S I]]]; [lia|].
-        exists r. split; [exact E|]. split; [exact S|].
-        intros z. rewrite I. unfold in_range. split.
-        -- intros [j [Hj [Ez Lz]]]. exists (k - j).
-           assert (j <= k) by nia.
-           split; [lia|]. split; [unfold st in *; nia|]. right. split; [exact Hlt|]. nia.
-        -- intros [j [Hj [Ez [[? ?]|[_ Bz]]]]]; [lia|].
-           assert (j <= k) by (unfold st in *; nia).
-           exists (k - j). split; [lia|]. split; [unfold st in *; nia|lia].
-      * (* ascending *)
-        assert (Hst : 0 < step) by lia.
-        cbv zeta. cbn [fst snd].
-        rewrite (Z.quot_div_nonneg (e - start + step - 1) step) by lia.
-        rewrite with_cap_nonneg by (apply Z.div_pos; lia).
-        destruct (range_loop_spec (Z.to_nat ((e - start + step - 1) / step)) start e step Hst)
-          as [r [E [S I]]]; [lia|].
-        exists r. split; [exact E|]. split; [exact S|].
-        intros z. rewrite I. unfold in_range. split.
-        -- intros [j [Hj [Ez Lz]]]. exists j. split; [exact Hj|]. split; [exact Ez|]. left. nia.
-        -- intros [j [Hj [Ez [[_ Bz]|[? ?]]]]]; [|lia]. exists j. split; [exact Hj|]. split; [exact Ez|lia].
+  { apply range_cond in C. split; [reflexivity|]. split; tauto. }
+  assert (NI : ~ range_infinite start e step) by (rewrite <- range_cond, C; discriminate).
+  split; [tauto|]. unfold range_infinite in NI. unfold range_count.
+  destruct (Z.eqb_spec e start) as [Ees|Nes].
+  { split; [intros _ H; unfold max_int in H; lia|]. intros _ _.
+    exists []. split; [reflexivity|]. split; [apply SInc_nil|]. intros z. simpl. split; [tauto|].
+    intros [k [Hk [Ez HH]]]. lia. }
+  unfold int64, min_int, max_int in Is, Ie, It.
+  destruct (Z.gtb_spec e start) as [Hasc|Hdesc].
+  - (* ascending *)
+    assert (Hst : 0 < step) by lia.
+    assert (Ed : u64 (u64 e - u64 start) = e - start) by (unfold u64, W64; lia).
+    assert (Es : u64 step = step) by (unfold u64, W64; lia).
+    rewrite Ed, Es. cbv beta iota zeta.
+    assert (Ed1 : u64 (e - start - 1) = e - start - 1) by (unfold u64, W64; lia).
+    rewrite Ed1.
+    assert (Hq0 : 0 <= (e - start - 1) / step) by (apply Z.div_pos; lia).
+    assert (Hq1 : (e - start - 1) / step <= e - start - 1) by (apply Z.div_le_upper_bound; nia).
+    assert (Ec : u64 ((e - start - 1) / step + 1) = (e - start - 1) / step + 1) by (unfold u64, W64; lia).
+    rewrite Ec. rewrite Z.abs_eq by lia. rewrite (Z.abs_eq step) by lia.
+    destruct (Z.ltb_spec e start); [lia|].
+    set (q := (e - start - 1) / step) in *.
+    assert (Hqm : q * step <= e - start - 1 < (q + 1) * step).
+    { pose proof (Z.mul_div_le (e - start - 1) step Hst). pose proof (Z.mul_succ_div_gt (e - start - 1) step Hst).
+      fold q in H0, H1. lia. }
+    destruct (Z.gtb_spec (q + 1) max_int) as [Big|Small].
+    { split; [reflexivity|]. intros _ H'. unfold max_int in *. lia. }
+    split; [intros _ H'; unfold max_int in *; lia|]. intros _ _.
+    destruct (range_fill_spec (Z.to_nat (q + 1)) 0 start step Hst ltac:(lia)) as [S I].
+    + unfold min_int. lia.
+    + left. unfold max_int. nia.
+    + unfold W64, max_int in *. lia.
+    + unfold u64 at 1. exists (range_fill (Z.to_nat (q + 1)) 0 (start mod W64) step).
+      split; [reflexivity|]. split; [exact S|]. intros z. rewrite I. unfold in_range. split.
+      * intros [j [Hj Ez]]. exists j. split; [lia|]. split; [lia|]. left. nia.
+      * intros [k [Hk [Ez [[_ Bz]|[? ?]]]]]; [|lia]. exists k. split; [nia|lia].
+  - (* descending *)
+    assert (Hlt : e < start) by lia. assert (Hst : 0 < - step) by lia.
+    assert (Ed : u64 (u64 start - u64 e) = start - e) by (unfold u64, W64; lia).
+    assert (Es : u64 (- u64 step) = - step) by (unfold u64, W64; lia).
+    rewrite Ed, Es. cbv beta iota zeta.
+    assert (Ed1 : u64 (start - e - 1) = start - e - 1) by (unfold u64, W64; lia).
+    rewrite Ed1.
+    assert (Hq0 : 0 <= (start - e - 1) / - step) by (apply Z.div_pos; lia).
+    assert (Hq1 : (start - e - 1) / - step <= start - e - 1) by (apply Z.div_le_upper_bound; nia).
+    assert (Ec : u64 ((start - e - 1) / - step + 1) = (start - e - 1) / - step + 1) by (unfold u64, W64; lia).
+    rewrite Ec. rewrite Z.abs_neq by lia. rewrite (Z.abs_neq step) by lia.
+    replace (- (e - start) - 1) with (start - e - 1) by lia.
+    destruct (Z.ltb_spec e start); [|lia].
+    set (st := - step) in *. set (q := (start - e - 1) / st) in *.
+    assert (Hqm : q * st <= start - e - 1 < (q + 1) * st).
+    { pose proof (Z.mul_div_le (start - e - 1) st Hst). pose proof (Z.mul_succ_div_gt (start - e - 1) st Hst).
+      fold q in H0, H1. lia. }
+    destruct (Z.gtb_spec (q + 1) max_int) as [Big|Small].
+    { split; [reflexivity|]. intros _ H'. unfold max_int in *. lia. }
+    split; [intros _ H'; unfold max_int in *; lia|]. intros _ _.
+    replace (q + 1 - 1) with q by lia.
+    assert (Ef : u64 (u64 start - u64 (u64 q * st)) = (start - q * st) mod W64).
+    { unfold u64. rewrite (Z.mod_small q) by (unfold W64, max_int in *; lia).
+      rewrite <- Zminus_mod. reflexivity. }
+    rewrite Ef.
+    destruct (range_fill_spec (Z.to_nat (q + 1)) 0 (start - q * st) st Hst ltac:(lia)) as [S I].
+    + unfold min_int. nia.
+    + left. unfold max_int. nia.
+    + unfold W64, max_int in *. lia.
+    + exists (range_fill (Z.to_nat (q + 1)) 0 ((start - q * st) mod W64) st).
+      split; [reflexivity|]. split; [exact S|]. intros z. rewrite I. unfold in_range. split.
+      * intros [j [Hj Ez]]. exists (q - j). split; [lia|]. split; [unfold st in *; nia|]. right. split; [exact Hlt|]. nia.
+      * intros [k [Hk [Ez [[? ?]|[_ Bz]]]]]; [lia|].
+        assert (k <= q) by (unfold st in *; nia).
+        exists (q - k). split; [lia|]. unfold st in *. nia.
 Qed.
 
 (* ---------------------------------------------------------------- arrays: nat-indexed facts *)
